@@ -97,6 +97,27 @@ def make_fault(kind):
     return Boom, st
 
 
+_INERT = {}
+
+
+def inert_token(kind):
+    from mistletoe import span_token, block_token
+    if kind not in _INERT:
+        if kind == 'span':
+            class InertSpan(span_token.SpanToken):
+                pattern = re.compile(r'\x00never')
+                parse_inner = False
+                parse_group = 0
+            _INERT[kind] = InertSpan
+        else:
+            class InertBlock(block_token.BlockToken):
+                @staticmethod
+                def start(line):
+                    return False
+            _INERT[kind] = InertBlock
+    return _INERT[kind]
+
+
 def fault_renderer_class():
     from mistletoe.html_renderer import HtmlRenderer
 
@@ -120,6 +141,10 @@ def apply(op, stack):
         d = Document(PROBES[op[1]])
         if stack:
             stack[-1].render(d)
+    elif op[0] == 'addtok':
+        # a user registers a custom token directly (public add_token API) while some renderer's context is active
+        mod = span_token if op[1] == 'span' else block_token
+        mod.add_token(inert_token(op[1]))
     elif op[0] == 'fault':
         _, kind, pos, k, j = op
         Boom, st = make_fault(kind)
@@ -159,6 +184,7 @@ def enabled(hist, depth_stack, fops, fault_ok):
         ops += [('enter', i) for i in range(len(RENDERERS))]
     if depth_stack > 0:
         ops.append(('exit',))
+        ops += [('addtok', 'block'), ('addtok', 'span')]
     ops += [('run', j) for j in range(len(PROBES))]
     if depth_stack == 0 and fault_ok:
         ops += fops
